@@ -135,6 +135,60 @@ fn main() {
             }
             0
         }
+        "corpus-unresolved" if args.len() >= 4 => {
+            // developer/audit tool: like corpus-diag, but lists identifier tokens on which go-to-definition
+            // answers nothing, grouped by the kind of the syntax node they sit in
+            let base = std::path::Path::new(&args[2]);
+            let mut files: Vec<(String, String)> = Vec::new();
+            let mut stack = vec![base.to_path_buf()];
+            while let Some(d) = stack.pop() {
+                for e in std::fs::read_dir(&d).unwrap().flatten() {
+                    let p = e.path();
+                    if p.is_dir() {
+                        stack.push(p);
+                    } else if p.extension().map(|x| x == "td").unwrap_or(false) {
+                        let rel = p.strip_prefix(base).unwrap().to_string_lossy().to_string();
+                        files.push((format!("{}/{rel}", ws::INC_DIR), std::fs::read_to_string(&p).unwrap_or_default()));
+                    }
+                }
+            }
+            let root = format!("{}/{}", ws::INC_DIR, args[3]);
+            let w = ws::Workspace::new(&files, &root);
+            let a = w.analysis();
+            let mut by_ctx: std::collections::BTreeMap<String, (usize, Vec<String>)> = Default::default();
+            let mut total = 0usize;
+            let mut resolved = 0usize;
+            for (f, _) in a.diagnostics() {
+                let Some(text) = w.text_of(f).cloned() else { continue };
+                let path = w.fs.path_of(f).unwrap_or_default();
+                let parse = syntax::parse(&text);
+                for el in parse.syntax_node().descendants_with_tokens() {
+                    let Some(tok) = el.as_token() else { continue };
+                    if tok.kind() != syntax::syntax_kind::SyntaxKind::Id {
+                        continue;
+                    }
+                    total += 1;
+                    let off = u32::from(tok.text_range().start()) as usize;
+                    if a.goto_definition(ws::pos(f, off)).is_some() {
+                        resolved += 1;
+                        continue;
+                    }
+                    let anc: Vec<String> = tok.parent_ancestors().take(4).map(|n| format!("{:?}", n.kind())).collect();
+                    let e = by_ctx.entry(anc.join("<")).or_default();
+                    e.0 += 1;
+                    if e.1.len() < 3 {
+                        e.1.push(format!("{}:{off} {}", path.rsplit('/').next().unwrap_or(""), tok.text()));
+                    }
+                }
+            }
+            println!("identifier tokens {total}, resolved {resolved}");
+            let mut v: Vec<_> = by_ctx.into_iter().collect();
+            v.sort_by_key(|x| std::cmp::Reverse(x.1 .0));
+            for (k, (n, ex)) in v.into_iter().take(40) {
+                println!("{n:7} {k}  e.g. {ex:?}");
+            }
+            0
+        }
         "query" if args.len() >= 4 => {
             // developer tool: vcheck query <dir> <offset> : root.td in dir, prints definition/refs/hover/diags
             let dir = std::path::Path::new(&args[2]);
